@@ -266,7 +266,7 @@ def run(ctx):
             j = p.mentions_call(r'Path::join$|PathBuf::join$')
             if j is not None and len(j.b) > 1:
                 active_tpl = L.string_template(prog, b, j.b[1])
-    rot = prog.body(WW + '::rotate')
+    rot = prog.inl(WW + '::rotate')      # a private helper computing the rotated name is spliced in
     # every name the rotated log can get: all with_file_name / join results in rotate (the name may be
     # recomputed in a loop until unused), each of which must sort on the right side of the active name
     rotated_tpls = []
@@ -360,6 +360,21 @@ def run(ctx):
         ctx.ob('ROTATE-UNIQUE', 'rotate-target-unused', okx, cs.where(),
                'rotated names carry a one-second timestamp; %s' % why, entry=rot.root)
     ctx.floor('ROTATE-UNIQUE', 1)
+    # snapshot names order = creation order. Recovery ("newest name first") and retention ("delete all but the newest names")
+    # both read the name as the age, so the name must be a function of the clock alone: a name chosen by looking at which names
+    # are free in the directory (bumped past existing files) runs ahead of the clock, and once retention frees a lower name a
+    # LATER snapshot gets an OLDER name — it is deleted as "oldest" right after it superseded the logs it covers.
+    for b in bodies:
+        if b.id != MGRT + '::generate_snapshot_path':
+            continue
+        ib = prog.inl(b.id)
+        fsq = ib.calls(r'Path::(exists|try_exists|is_file|metadata|symlink_metadata)$|^std::fs::(read_dir|metadata|exists|symlink_metadata)$|::find_snapshots$')
+        clock = ib.calls(r'::current_timestamp$|SystemTime::now$|Utc::now$|Instant::now$')
+        ctx.ob('REPLAY-ORDER', 'snapshot-name-from-clock-only', bool(clock) and not fsq, (fsq[0].where() if fsq else b.where()),
+               'the snapshot file name is derived from the clock only (no look at which names exist)' if clock and not fsq else
+               ('the snapshot name depends on the directory contents (%s): names can run ahead of the clock, so a later snapshot can sort as older '
+                'than an existing one and be deleted by retention right after its covered logs were removed' % fsq[0].short() if fsq else
+                'the snapshot name is not derived from a clock read'), entry=b.root)
     # newest snapshot first: find_snapshots sorts descending and recover_from_snapshot must not reverse it
     fs_desc = None
     for b in bodies:
@@ -383,7 +398,7 @@ def run(ctx):
                    'find_snapshots sorts %s and recovery iterates it %s: the %s snapshot is tried first' % (
                        'newest-first' if fs_desc else 'oldest-first', 'reversed' if rev else 'in order',
                        'newest' if newest_first else 'OLDEST (logs covered by newer snapshots are already deleted)'), entry=b.root)
-    ctx.floor('REPLAY-ORDER', 3)
+    ctx.floor('REPLAY-ORDER', 4)
 
     # ------------------------------------------------------------------ 6. counter writers
     ncw = 0
